@@ -440,6 +440,9 @@ class ParserText(ParserBase):
                 item_offset += self._check_separators('separator', item_offset, separator_spaces, None, None)
 
             if item_offset == len(self._parsable):
+                if not skip_empty:
+                    # a separator at the very end is followed by an empty item
+                    raise InvalidValue(self._parsable[item_offset:], type(self), name)
                 break
             if max_item_num is not None and len(value) == max_item_num:
                 break
